@@ -512,7 +512,7 @@ func askStacks() []stackFactory {
 }
 
 func runC11(r *ev.Run) {
-	r.Rule = "per ask-capable stack: 3 nodes (two serve with 1-4 ServeAsk loops, one never serves), 2-16 concurrent askers, requests 18..MTU bytes (unique, self-describing), handlers {derived response, negative, slow, response longer than the asker's buffer}, contexts {live, pre-cancelled, deadline, cancelled soon}, optional Close of a server mid-run; a successful Ask must return exactly the bytes one non-negative invocation for that very request produced (responses are derived from request id, invocation number and a secret), handlers must see the request bytes and the asker's address; askers whose context ended before any handler began must not stay parked; response buffers of failed asks are refilled by the caller and must stay untouched; cancel-races-reply family: large responses (up to 1 MiB, multi-part) with the cancellation drawn around the measured round-trip time. non-trivial = success while >=2 handler invocations overlapped at a server; distinct = (stack, request length class, behaviour)"
+	r.Rule = "per ask-capable stack: 3 nodes (two serve with 1-4 ServeAsk loops, one never serves), 2-16 concurrent askers, requests 18..MTU bytes (unique, self-describing), handlers {derived response, negative, slow, response longer than the asker's buffer}, contexts {live, pre-cancelled, deadline, cancelled soon}, optional Close of a server mid-run; a successful Ask must return exactly the bytes one non-negative invocation for that very request produced (responses are derived from request id, invocation number and a secret), handlers must see the request bytes and the asker's address; askers whose context ended before any handler began must not stay parked; response buffers of failed asks are refilled by the caller and must stay untouched; handlers that only wait for the context they were given, asked with deadlines of 5-45 ms: a call still pending in two observations a second apart after its context ended, parked at the same library frames, with its handler still waiting on a context that has not ended, is reported; cancel-races-reply family: large responses (up to 1 MiB, multi-part) with the cancellation drawn around the measured round-trip time. non-trivial = success while >=2 handler invocations overlapped at a server; distinct = (stack, request length class, behaviour)"
 	g := rng.New(r.Seed, "C11", fmt.Sprint(r.Batch))
 	idx := 0
 	for _, sf := range askStacks() {
@@ -557,4 +557,18 @@ func runC11(r *ev.Run) {
 		}
 	}
 	runCancelRacesReply(r, "C11")
+	// handlers that wait for their context, asked with short deadlines
+	for _, sf := range askStacks() {
+		idx++
+		cg := g.Fork()
+		caseID := "handler-waits-for-context-" + sf.Name
+		if sf.Heavy || !r.Mine(idx) || !r.Want(caseID) {
+			continue
+		}
+		st, err := sf.Build(stackOptsFor(sf.Name, cg))
+		if err != nil || !st.HasAsk {
+			continue
+		}
+		c11HandlerWaitsForContext(r, st, cg, caseID)
+	}
 }
